@@ -25,8 +25,10 @@
 EXTENDS Buffer, Format, Lits
 
 CONSTANTS HookKind,         \* "none" | "plain" | "print" | "panic": what RegisterRedactErrorFn installed
-          NestedOverride    \* "inherited" (the code) | "dropped" (before the repair of F3: kept so that
+          NestedOverride,   \* "inherited" (the code) | "dropped" (before the repair of F3: kept so that
                             \* TLC can exhibit the defect as a counterexample of the C06 invariant)
+          SMOverride        \* "strverbs" (the code) | "always" (before the repair of F8: a SafeMessager under a verb
+                            \* that is not valid for strings showed its underlying value in the clear)
 
 RTok == 1000000             \* rendering tokens  RTok + index into rt
 PTok == 2000000             \* payload tokens    PTok + payload id (opaque non-empty plain text)
@@ -303,8 +305,10 @@ HandleMethods(ps0, a, verb0) ==
                                ELSE RunScript(Call(ps, "SafeFormat", a, verb), a.scr, verb, a),
                                a, verb, MSafeFormat)>>
        ELSE IF ps.ov # "unsafe" /\ IsSafeMessager(a) THEN
-            \* defer catchPanic; defer startSafeOverride().restore(); fmtString(v.SafeMessage(), verb)
-            LET s1 == StartSafeOverride(ps)
+            \* defer catchPanic; for the verbs fmtString accepts: defer startSafeOverride().restore(); then
+            \* fmtString(v.SafeMessage(), verb).  (Before the repair of F8 the override was taken for every verb, so the
+            \* bad-verb report %!d(T=<underlying value>) showed the value in the clear.)
+            LET s1 == IF verb \in {VV, VS, VX, VXX, VQ} \/ SMOverride = "always" THEN StartSafeOverride(ps) ELSE ps
                 s2 == IF a.k = "obj" /\ (a.pan # <<>> \/ IsNilRecv(a))
                       THEN [Call(s1, "SafeMessage", a, verb) EXCEPT !.exc = IF a.pan # <<>> THEN a.pan ELSE <<TStr(0, <<>>)>>]
                       ELSE IF a.k = "safe"
